@@ -232,3 +232,47 @@ contract(R + 'determine_encoding', props=['C07'],
     invariants={0: _DE_INV},
     modifies=['self.buffer', 'self.pointer', 'self.raw_buffer', 'self.eof', 'self.stream_pointer', 'self.stream.g_read', 'self.raw_decode', 'self.encoding'],
     raises=[RERR, 'TypeError'], raises_any=True)
+
+# ---- C18 / C20 / C07: the refill loop itself (a second contract of Reader.update: callers keep using the abstract one above).
+#      The codec behind self.raw_decode is ASSUMED: it converts a prefix of the raw bytes, or raises UnicodeDecodeError whose
+#      .start is the offset of the first offending byte inside the raw buffer.
+fields('UnicodeDecodeError', start='int', encoding='any', reason='any')
+extern('value-call', R + 'update', why='incremental codec (codecs.utf_8_decode / utf_16_*_decode): returns (text, number of bytes consumed) with 0 <= consumed <= len(raw); '
+       'on malformed input raises UnicodeDecodeError with 0 <= start < len(raw)',
+       requires=[], result='tuple',
+       ensures=["len(result) == 2 and typeis(result[0], 'str') and typeis(result[1], 'int') and 0 <= result[1] and result[1] <= len(as_(args[0], 'bytes'))"],
+       ensures_raise={'UnicodeDecodeError': ["0 <= exc.start and exc.start < len(as_(args[0], 'bytes'))"]},
+       modifies=[], raises=['UnicodeDecodeError'])
+contract(R + 'check_printable#called', trusted=True, why='placeholder', requires=[], ensures=[], modifies=[], raises=[RERR]) if False else None
+
+_UP_INV = ["self.pointer == 0", "typeis(self.buffer, 'str')", "typeis(self.raw_buffer, 'bytes') or typeis(self.raw_buffer, 'str')",
+           "typeis(self.raw_buffer, 'bytes') ==> self.raw_decode is not None", "typeis(self.raw_buffer, 'str') ==> self.raw_decode is None",
+           "self.raw_decode is old(self.raw_decode)",
+           "len(self.buffer) >= old(len(self.buffer) - self.pointer)",
+           "old(len(self.buffer) - self.pointer) >= length ==> self.stream_pointer == old(self.stream_pointer)",
+           "self.eof or typeis(self.stream, 'stream')", "self.stream is None or typeis(self.stream, 'stream')",
+           "self.stream_pointer >= old(self.stream_pointer)", "old(self.eof) ==> self.eof",
+           "self.index == old(self.index) and self.line == old(self.line) and self.column == old(self.column)",
+           "(typeis(self.stream, 'stream') and typeis(self.raw_buffer, 'bytes')) ==> as_(self.stream, 'stream').g_read.endswith(as_(self.raw_buffer, 'bytes'))"]
+contract(R + 'update#refill', props=['C18', 'C20', 'C07'],
+    params={'length': 'int'},
+    requires=["0 <= self.pointer and self.pointer <= len(self.buffer) and self.index >= self.pointer",
+              "self.raw_buffer is None or typeis(self.raw_buffer, 'bytes') or typeis(self.raw_buffer, 'str')",
+              "typeis(self.raw_buffer, 'bytes') ==> self.raw_decode is not None", "typeis(self.raw_buffer, 'str') ==> self.raw_decode is None",
+              "self.eof or typeis(self.stream, 'stream')", "self.stream is None or typeis(self.stream, 'stream')",
+              "(typeis(self.stream, 'stream') and typeis(self.raw_buffer, 'bytes')) ==> as_(self.stream, 'stream').g_read.endswith(as_(self.raw_buffer, 'bytes'))"],
+    ensures=[
+        "self.index == old(self.index) and self.line == old(self.line) and self.column == old(self.column)",
+        # C20: the consumed prefix is dropped on every refill
+        "old(self.raw_buffer) is not None ==> self.pointer == 0",
+        "old(self.raw_buffer) is None ==> (self.buffer is old(self.buffer) and self.pointer == old(self.pointer) and self.stream_pointer == old(self.stream_pointer))",
+        # C18: nothing is read while enough characters are buffered
+        "old(len(self.buffer) - self.pointer) >= length ==> self.stream_pointer == old(self.stream_pointer)",
+        "self.stream_pointer >= old(self.stream_pointer)", "old(self.eof) ==> self.eof",
+    ],
+    ensures_raise={RERR: []},
+    labels={0: 'position-unchanged', 1: 'consumed-prefix-dropped', 2: 'nothing-to-do-once-everything-is-decoded', 3: 'no-read-while-enough-is-buffered',
+            4: 'stream-pointer-only-grows', 5: 'eof-is-sticky'},
+    invariants={0: _UP_INV},
+    modifies=['self.buffer', 'self.pointer', 'self.raw_buffer', 'self.eof', 'self.stream_pointer', 'self.stream.g_read'],
+    raises=[RERR, 'TypeError'], raises_any=True)
